@@ -1,0 +1,49 @@
+//go:build verif
+
+package handler
+
+// Machine-checked contracts for the gocv verifier (/verif/DESIGN.md). Comments only.
+
+//@ trusted (github.com/99designs/gqlgen/graphql.Transport).Supports(r) (ok)
+//@   pure
+//@ trusted (github.com/99designs/gqlgen/graphql.Transport).Do(w, r, exec)
+//@ trusted (*net/http.Request).Context() (ctx)
+//@   nopanic
+//@   pure
+//@ trusted (*net/http.Request).WithContext(ctx) (r2)
+//@   ensures r2 != nil
+//@   nopanic
+//@   pure
+//@ trusted (net/http.ResponseWriter).WriteHeader(code)
+//@   nopanic
+//@ trusted (net/http.ResponseWriter).Write(b) (n, err)
+//@   nopanic
+//@ trusted encoding/json.Marshal(v) (b, err)
+//@   nopanic
+//@   pure
+//@ trusted sendErrorf(w, code, format, args)
+
+// C09: the first registered transport (lowest index) that supports the request is used.
+//@ func (*Server).getTransport [C09]
+//@   requires s != nil
+//@   ghost hit = false
+//@   at `t.Supports(r)` requires !hit && arg0 == r && calls(Supports) == idx1
+//@   at `t.Supports(r)` ghost hit = callres0
+//@   loop 1: invariant !hit && calls(Supports) == idx1
+//@   ensures !hit ==> res0 == nil && calls(Supports) == len(s.transports)
+//@   ensures hit ==> calls(Supports) >= 1 && calls(Supports) <= len(s.transports) && res0 == s.transports[calls(Supports) - 1]
+//@   safe
+//@   pure
+
+// C04/C09: ServeHTTP never lets a panic escape; a recovered panic produces exactly one 422 response built from
+// PresentRecoveredError; without a supporting transport the answer is 400 and no transport runs.
+//@ func (*Server).ServeHTTP [C04,C09]
+//@   requires s != nil && r != nil && w != nil && s.exec != nil
+//@   stable Server.exec
+//@   noescape
+//@   ghost picked = false
+//@   at `s.getTransport(r)` ghost picked = callres0 != nil
+//@   at `transport.Do(w, r, s.exec)` requires picked
+//@   ensures panicked ==> calls(PresentRecoveredError) == 1 && calls(Write) == 1
+//@   ensures !panicked && !picked ==> calls(Do) == 0 && calls(sendErrorf) == 1
+//@   ensures !panicked && picked ==> calls(Do) == 1
